@@ -399,6 +399,12 @@ def f3_files(tier, daqmx=True, scaled=True):
     out.append(('special/short-final-contiguous-3', [G.seg([(B, _full('Int16', 3)), (A, _full('Int32', 2))], chunks=3, short=3)]))
     out.append(('special/short-final-contiguous-9', [G.seg([(B, _full('Int8', 5)), (C, _full('Int16', 2)), (A, _full('Int32', 2))], chunks=2, short=9)]))
     out.append(('special/short-final-interleaved', [G.seg([(B, _full('Int16', 2)), (A, _full('Int32', 2))], chunks=3, interleaved=True, short=5)]))
+    # byte-identical metadata blocks recurring after a segment in between changed the properties / the index (A, B, A)
+    pa, pb = [['gain', 'Int32', '01000000'], ['unit', 'String', '56']], [['gain', 'Int32', '02000000']]
+    sa = lambda: G.seg([('/', ['NODATA'], pa), ("/'g'", ['NODATA'], pa), (A, _full('Int32', 2), pa), (B, _full('Int16', 1))])
+    sb = lambda: G.seg([('/', ['NODATA'], pb), ("/'g'", ['NODATA'], pb), (A, _full('Int32', 3), pb), (B, _full('Int16', 1))])
+    out.append(('special/aba-props', [sa(), sb(), sa()]))
+    out.append(('special/abab-props', [sa(), sb(), sa(), sb(), G.seg([], meta=False)]))
     # segments that are complete by their own offsets but whose raw data stops inside the last chunk, NOT in last position
     for kind_ in ('shortmid', 'shortmid-il', 'shortmid-daqmx', 'shortmid-slow'):
         if kind_ == 'shortmid-daqmx' and not daqmx:
